@@ -303,12 +303,12 @@ func (p *PIDZero) blockUntilRunnableReady(r Stateable) error {
 			if p.ctx.Err() != nil {
 				// startupCtx is a child of p.ctx: the supervisor was cancelled, this is no timeout
 				logger.Debug("Context canceled, stopping runnables")
-				return nil
+				return p.pendingError() // a failure queued before the cancellation still counts
 			}
 			return fmt.Errorf("timeout waiting for runnable to start: %w", startupCtx.Err())
 		case <-p.ctx.Done():
 			logger.Debug("Context canceled, stopping runnables")
-			return nil
+			return p.pendingError() // a failure queued before the cancellation still counts
 		case <-ticker.C:
 			// continue waiting, adding an exponential backoff
 			if r.IsRunning() {
